@@ -62,6 +62,9 @@ type scase struct {
 	// CaseTwin: later entries G0, G1, ... whose names differ from the goldens'
 	// only in the case of a letter (different files on this platform)
 	CaseTwin bool `json:"case_twin,omitempty"`
+	// CdFirst: the script changes into a subdirectory before its first
+	// comparison and names the goldens from there (../g0)
+	CdFirst bool `json:"cd_first,omitempty"`
 	// Old: what a mismatching golden entry holds before the run (default "OLD\n")
 	Old string `json:"old,omitempty"`
 }
@@ -126,6 +129,9 @@ func (c scase) String() string {
 	if c.Old != "" {
 		p = append(p, fmt.Sprintf("old-golden-content:%q", c.Old))
 	}
+	if c.CdFirst {
+		p = append(p, "cd-sub-first")
+	}
 	for _, l := range c.Lines {
 		m := "mismatch"
 		if l.Match {
@@ -169,8 +175,17 @@ func build(c scase) (string, bool) {
 	if c.Dup || c.DupSpell {
 		files = append(files, txtar.File{Name: "g0", Data: []byte("SHADOWED\n")})
 	}
+	if c.CdFirst {
+		script.WriteString("cd sub\n")
+	}
 	for i, l := range c.Lines {
 		g := goldenName(c, i)
+		if c.CdFirst {
+			if l.Kind == "respell" || l.Kind == "outside" {
+				return "", false
+			}
+			g = "../" + g
+		}
 		golden := oldOf(c)
 		if l.Match {
 			if !representable(contents[l.Content]) || hasMarker(contents[l.Content]) {
@@ -635,6 +650,13 @@ func realMain() {
 			for _, b := range dupLines {
 				cases = append(cases, scase{Lines: []cmpLine{a, b}, Old: old})
 			}
+		}
+	}
+	// a cd before the first comparison
+	for _, a := range dupLines {
+		cases = append(cases, scase{Lines: []cmpLine{a}, CdFirst: true})
+		for _, b := range dupLines {
+			cases = append(cases, scase{Lines: []cmpLine{a, b}, CdFirst: true})
 		}
 	}
 	// the work-directory root given as a relative path
